@@ -458,6 +458,57 @@ func ruleERR4(c *Ctx) []Ob {
 						}
 					}
 				})
+				// a companion boolean result that the callee sets to one constant whenever its error may be non-nil
+				// ((stop bool, err error): err != nil only with stop == true): the branch on which the boolean has
+				// the other value is a nil-error edge too
+				if g := staticCallee(call); g != nil && c.IsLib(c.declared(g)) {
+					g = c.declared(g)
+					for bi := 0; bi < sig.Results().Len(); bi++ {
+						bt, isB := sig.Results().At(bi).Type().Underlying().(*types.Basic)
+						if !isB || bt.Kind() != types.Bool || bi == ei {
+							continue
+						}
+						// the value of result bi on every return whose error may be non-nil
+						var withErr *bool
+						consistent := true
+						for _, ret := range returnsOf(g) {
+							erv, has := returnedValue(ret, ei)
+							if !has {
+								continue
+							}
+							if isNilConst(erv) {
+								continue
+							}
+							brv, hasB := returnedValue(ret, bi)
+							if !hasB {
+								consistent = false
+								continue
+							}
+							kb, isK := constBool(brv)
+							if !isK {
+								consistent = false
+								continue
+							}
+							if withErr == nil {
+								v := kb
+								withErr = &v
+							} else if *withErr != kb {
+								consistent = false
+							}
+						}
+						if !consistent || withErr == nil {
+							continue
+						}
+						bvs := resultValues(call, bi)
+						ifEdges(fn, func(cond ssa.Value, e edge) {
+							for _, bv := range bvs {
+								if cond == bv && e.Branch != *withErr {
+									cut = append(cut, e)
+								}
+							}
+						})
+					}
+				}
 				cutSet := map[edge]bool{}
 				for _, e := range cut {
 					cutSet[e] = true
